@@ -8,7 +8,7 @@ pub fn HashToPoint__hash_to_point<B: AsRefBytes, C: AsRefBytes>(m: B, dst: C) ->
 { unimplemented!() }
 #[verifier::external_body]
 pub fn HashToScalar__hash_to_scalar<B: AsRefBytes, C: AsRefBytes>(m: B, dst: C) -> (s: Scalar)
-    ensures s == hs(m.bytes(), dst.bytes())
+    ensures s == hs(m.bytes(), dst.bytes()), s.val() != 0   // non-zero: proved for both implementors (scalar_from_hkdf_bytes, unit IMPL)
 { unimplemented!() }
 #[verifier::external_body]
 pub fn Pairing__pairing(points: &[(Sig, Pk)]) -> (g: Gt)
